@@ -15,7 +15,9 @@ Trace == ndJsonDeserialize(IOEnv.TRACE_FILE)
 VARIABLE l
 
 TCOf(mode) == IF mode = "slices" THEN {"a"} ELSE {"a", "b"}
-TargetsOf(mode) == IF mode = "slices" THEN CountTargets(6) ELSE SeqsUpTo(RowsAB(1), 3)
+TargetsOf(mode) == IF mode = "slices" THEN CountTargets(6)
+                   ELSE IF mode = "general2" THEN SeqsUpTo(RowsAB(1), 3) \cup SeqsUpTo(RowsAB(2), 2)
+                   ELSE SeqsUpTo(RowsAB(1), 3)
 
 Verdict(ev) ==
     LET cur == FromJOp(ev.cur)
